@@ -258,14 +258,8 @@ def make_ref(expr):
     # disabled. The expression reference name is generated anyway
     # because it is used as a part of a parent expression, however,
     # we'll skip registering such names.
-    if ref_name is None:
-        other = expr.context._ref_values.get(ref)
-        if other is None or other is expr:
-            return ref
-        # The generated name is already registered for another
-        # expression. To avoid using the same variable for two
-        # different expressions, register an unique name.
-
+    # Generated names are registered as well: otherwise the same name
+    # could be used for two different expressions.
     return expr.context._register_reference(expr, ref)
 
 
